@@ -225,6 +225,28 @@ CLAIMED["C11"] = dict(
          "scope in the code and in the model); the property is silent about blocks and the check does not judge such programs.",
 )
 
+CLAIMED["C03"] = dict(
+    text="Theorems about Scope.lookup/define (the table functions the whole-program model calls) and the total lazy evaluator Defs.eval "
+         "(recursion through the definition table, operators of Model.Ops): for definitions with distinct names, after any permutation of "
+         "the table every name finds the same definition (lookup_perm), every expression has the same value and the same error reports "
+         "for every fuel, i.e. through chains of any length (eval_perm), moving one definition anywhere changes nothing "
+         "(move_definition); the table built from the source order is that order and a second definition is refused wherever it "
+         "stands (defineAll_spec, defineAll_dup), so the whole result - refused, or the list of emitted values with their reports - "
+         "is the same for every order (image_perm); values do not depend on the fuel once it suffices (fuel_mono, fuel_irrelevant, "
+         "fuel_unique); an additive chain of any length n evaluates to c + n in every order of its definitions (chain_value, "
+         "chain_value_any_order); definitions added later never capture a reference that already has one (eval_append_of_ok). Tie: "
+         "definition tables in 5 placements against each other and against Defs.image; chains to depth 300/30 in 5 orders with the "
+         "value known to the generator; one constant in 33 operand/directive positions, 4 placements, against the literal program; "
+         "generated programs with definitions moved/permuted (also through the whole-program model); practice programs with "
+         "literal definitions moved.",
+    design_ref="DESIGN.md §5 C03",
+    technique="Lean 4 theorems (induction on permutations, on fuel and on chain length) + metamorphic reordering oracle on the implementation + Defs/whole-program model correspondence",
+    note=NOTE + "The theorems are about the final table (every definition entered); that the implementation's eager 'try now, else defer' "
+         "evaluation never uses a table that is still incomplete is what the reordering oracle and the correspondence check decide "
+         "(they found F-C03-1, repaired by 71b160f). Definitions containing '.' or local labels are position-dependent by meaning "
+         "and are not moved.",
+)
+
 PENDING_REASON = "check not built yet (build in progress; see DESIGN.md §8 for the order)"
 
 
